@@ -24,7 +24,7 @@ func (*c10) ID() string    { return "C10" }
 func (*c10) Level() string { return "exploration" }
 func (*c10) NumCases(tier string) int {
 	if tier == "thorough" {
-		return 60000
+		return 24000
 	}
 	return 1500
 }
